@@ -75,12 +75,12 @@ def spell_I(rng, R):
     return ["--replace"], "{}"
 
 
-def judge_replace(st, detail, rp, r, lines, initial, R):
+def judge_replace(st, detail, rp, r, lines, initial, R, want_rc=0):
     exp = [[a.replace(R, ln).encode("utf-8", "surrogateescape") for a in initial] for ln in lines if ln != ""]
     got = [argv for _, argv in r.invocations]
     problems = []
-    if r.rc != 0:
-        problems.append("exit status %r" % r.rc)
+    if r.rc != want_rc:
+        problems.append("exit status %r, expected %r" % (r.rc, want_rc))
     if got != exp:
         if len(got) != len(exp):
             problems.append("%d invocations, expected %d (one per non-empty line)" % (len(got), len(exp)))
@@ -138,7 +138,18 @@ def worker(job):
                 mode = order[-1]
                 st.add("option_orders", tuple(order))
             st.add("R_spellings", optI[0].split("=")[0] if optI[0].startswith("--") else optI[0][:2])
-            r = xref.run_xargs(wd, opts, [a.encode() for a in initial], data)
+            # one replace-mode run in five: the command fails (status 1..125) for some lines - every line is still run once, in order,
+            # and the failure of ANY line, not only of the last, shows in the exit status (123)
+            script, want_rc = None, 0
+            nlines = len([l_ for l_ in lines if l_ != ""])
+            if mix < 0.6 and oversized_at is None and nlines and rng.random() < 0.2:
+                outcomes = [rng.choice(["0", "0", "1", "2", "125"]) for _ in range(nlines)]
+                script = ",".join(outcomes)
+                want_rc = 123 if any(o != "0" for o in outcomes) else 0
+                st.inc("replace_mode_runs_with_failing_command")
+                if outcomes[-1] == "0" and want_rc == 123:
+                    st.inc("replace_mode_runs_where_only_earlier_lines_fail")
+            r = xref.run_xargs(wd, opts, [a.encode() for a in initial], data, script=script)
             st.inc("evaluations")
             st.add("distinct", (tuple(opts), tuple(initial), data))
             st.inc("child_invocations", len(r.invocations))
@@ -165,7 +176,7 @@ def worker(job):
                     st.inc("replace_mode_runs_with_multibyte_R")
                 if any("\udc80" <= ch <= "\udcff" for l in lines for ch in l):
                     st.inc("replace_mode_runs_with_lines_that_are_not_utf8")
-                judge_replace(st, detail, rp, r, lines, initial, Reff)
+                judge_replace(st, detail, rp, r, lines, initial, Reff, want_rc)
             else:
                 st.inc("mode_%s_after_mixed_options" % mode)
                 tok = xref.tokenize(data)
@@ -210,5 +221,5 @@ def run(ctx):
     ctx.pmap(worker, [(k, n // nw, ctx.seed) for k in range(nw)])
     for key in ("empty_input_runs", "replace_mode_runs", "mode_n_after_mixed_options", "mode_L_after_mixed_options", "I_with_n1",
                 "replace_mode_runs_with_multibyte_R", "runs_with_a_line_too_long_to_pass",
-                "replace_mode_runs_with_lines_that_are_not_utf8"):
+                "replace_mode_runs_with_lines_that_are_not_utf8", "replace_mode_runs_where_only_earlier_lines_fail"):
         ctx.require(key, 3)
